@@ -359,3 +359,8 @@ py::object PyTreeIter::NextImpl() {"""),
                     dict,
                     kind != PyTreeKind::OrderedDict && !m_is_dict_insertion_ordered);
                 for (const py::handle &key : keys) {""")])
+
+# every two-armed C++ conditional written the other way round: `if (!(c)) B else A` (41 sites;
+# attributes travel with their arm).  The first run raised two false alarms - N1 and D3 looked for
+# "the call is in the then-arm" - now both read the outcome of the un-negated condition.
+N.append({'id': 'cxx-if-else-inverted', 'generator': 'invert-ifs', 'file': None, 'edits': []})
